@@ -117,6 +117,7 @@ func (m *machine) pbVarint(v value, t types.Type) []value {
 				out[i] = uint8(d.Val.Int64())
 			} else {
 				out[i] = d
+				m.setProv(d, provenance{"varint", u, i, n})
 			}
 		}
 		return out
@@ -385,6 +386,17 @@ type pbReader struct {
 
 func (r *pbReader) varint() (value, bool) {
 	m := r.m
+	// fast path: the bytes are exactly a varint this path encoded earlier
+	if r.pos < len(r.b) {
+		if t, ok := r.b[r.pos].(*Term); ok && m.prov != nil {
+			if p, ok := m.prov[t]; ok && p.kind == "varint" && p.idx == 0 && r.pos+p.n <= len(r.b) {
+				if src, ok := m.wholeProv(r.b[r.pos:r.pos+p.n], "varint"); ok {
+					r.pos += p.n
+					return src, true
+				}
+			}
+		}
+	}
 	var acc uint64
 	var accT *Term
 	shift := 0
